@@ -36,7 +36,10 @@ CART_CODE = {
     'inc0': [b'p0=1\n', b'#include inc.lua\n', b'p1=2\n'],
     'inc2': [b't0a=1\n', b't0b=2\n', TAB, b't1a=3\n', b'#include inc.lua\n', TAB, b't2a=4\n'],
     'inc3e': [TAB, TAB, b'x3=1\n', TAB],       # empty tabs 0,1 and 3
+    # 13 tabs (0..12): selectors with two digits
+    'inc12': [ln for n in range(13) for ln in ([TAB] if n else []) + [b'm%d=%d\n' % (n, n)]],
 }
+MANY_TAB_SELECTORS = [0, 1, 2, 9, 10, 11, 12, 13, 19, 20, 21, 99, 100, 101, 112]
 P8_HEAD = b'pico-8 cartridge // http://www.pico-8.com\nversion 33\n'
 
 
@@ -71,6 +74,7 @@ def line_kinds():
     kinds += [('p8', 'inc0', n) for n in range(0, 2)]
     kinds += [('p8', 'inc3e', n) for n in range(0, 5)]
     kinds += [('missing', 'nothere.lua'), ('missing', 'sub/nothere.p8')]
+    # two- and three-digit tab selectors are only run in the dedicated 'manytabs' family (keeps the product small)
     png = [('png', 'inc2', None), ('png', 'inc0', None)] + [('png', 'inc2', n) for n in range(0, 5)]
     return kinds, png
 
@@ -265,9 +269,21 @@ def spelled_sequences(tier):
                 yield (('lua', 'inc.lua'), sk)
 
 
+def manytab_sequences(tier):
+    """Selectors with more than one digit on a cart with 13 tabs, .p8 and .p8.png, alone and between plain lines."""
+    plain = ('plain', b'a=1\n')
+    for fmt in ('p8', 'png'):
+        for n in MANY_TAB_SELECTORS:
+            k = (fmt, 'inc12', n)
+            yield (k,)
+            yield (plain, k, plain)
+            yield (k, (fmt, 'inc12', MANY_TAB_SELECTORS[(MANY_TAB_SELECTORS.index(n) + 4) % len(MANY_TAB_SELECTORS)]))
+        yield ((fmt, 'inc12', None),)
+
+
 def shards(tier, seed):
     n = 32 if tier == 'quick' else 128
-    return [('seqs', tier, k, n) for k in range(n)] + [('resave',)] + [('spelled', tier, k, 4) for k in range(4)]
+    return [('seqs', tier, k, n) for k in range(n)] + [('resave',)] + [('spelled', tier, k, 4) for k in range(4)] + [('manytabs', tier, 0, 1)]
 
 
 def resave_history(res):
@@ -314,7 +330,7 @@ def run_shard(item):
     kind_, tier, k, n = item
     d = setup_dir()
     try:
-        for i, seq in enumerate(spelled_sequences(tier) if kind_ == 'spelled' else sequences(tier)):
+        for i, seq in enumerate(spelled_sequences(tier) if kind_ == 'spelled' else manytab_sequences(tier) if kind_ == 'manytabs' else sequences(tier)):
             if i % n != k:
                 continue
             check_cart(d, seq, res)
@@ -333,6 +349,7 @@ def replay(case):
         return [(s, v[0]) for s, v in res.violations.items()]
     base, png = line_kinds()
     allk = base + png
+    allk = allk + [(f, 'inc12', n) for f in ('p8', 'png') for n in MANY_TAB_SELECTORS + [None]]
     by_text = {line_text(k): k for k in allk}
     for k in allk:
         if k[0] != 'plain':
